@@ -227,6 +227,11 @@ def check(run: Run) -> None:
             if f"lhs.{fld}==rhs.{fld}" not in txt and f"rhs.{fld}==lhs.{fld}" not in txt:
                 run.finding("C03.e2", f"schema_equivalent:{fld}", f"NodeRuntimeRegistry::schema_equivalent does not compare {fld}", loc=NODE)
 
+    with run.obligation("C03.e3", "K11", "the passive marker is part of the node's wiring identity, so a passive and an active use of the "
+                        "same inputs never share one node (shared with C06.c2)"):
+        from . import c06
+        c06.arg_tag_identity(run, "C03.e3")
+
     with run.obligation("C03.f", "K1", "node start_impl self-schedules (node_index, NOW) iff schema and schedule_on_start and graph, after started:=true"):
         fa = R.fn(run, NODE, "start_impl")
         ST = r"node_storage\(.*\)\.started"
